@@ -22,11 +22,14 @@ TIMES = (0.37, 0.61, 0.93)
 ITS = (4, 12, 8)          # iteration labels: not monotonic in row order
 TVALS = (0.5, 2.5, 1.5)
 TMIX = (2, 3.75, 2.5)     # hand-written time list mixing int and float
-VARS = ['gammadet', 'Ktrace', 'Hamiltonian', 'gdown4', '<custom>']
+VARS = ['gammadet', 'Ktrace', 'Hamiltonian', 'gdown4', '<custom>',
+        '<custom2>']
 # keys whose columns become *component inputs* of the per-step instance of a
 # later call (Momentumup3 is then assembled from the three columns)
 VARS_C = ['Momentumx', 'Momentumy', 'Momentumz', 'Momentumdown3']
-ESTS = ['max', 'mean', 'median', 'minabs', 'x0y0z1', '<customest>']
+VARS_N = ['DDalpha', 'gammadown3_bssnok', 'Ktrace']
+ESTS = ['max', 'mean', 'median', 'minabs', 'x0y0z1', '<customest>',
+        '<customest2>', '<customest3>']
 KW = {'Lambda': 0.3, 'clear_cache_every_nbr_calc': 3}
 _STEPS = {}
 
@@ -37,8 +40,31 @@ def custom_var(rel):
     return rel['Hamiltonian'] * rel['alpha'] + rel['gammadet'] + rel.Lambda
 
 
+def custom_var2(rel):
+    return rel['Ktrace'] - 2.0 * rel['gammadet']
+
+
+# custom variables requested in the same call share ONE dictionary
+CUSTOM_VARS = {'<custom>': ('custom', custom_var),
+               '<custom2>': ('custom2', custom_var2)}
+
+
 def custom_est(a):
     return a[1, 2, 3] - a[0, 0, 0]
+
+
+def custom_est2(a):
+    return float(np.sqrt(np.mean(a * a)))
+
+
+def custom_est3(a):
+    return a[2, 1, 0] + 2.0 * a[3, 3, 3]
+
+
+# several custom estimators may arrive in ONE dictionary, others in their own
+CUSTOM_ESTS = {'<customest>': ('customest', custom_est),
+               '<customest2>': ('customest2', custom_est2),
+               '<customest3>': ('customest3', custom_est3)}
 
 
 def step_inputs(seed):
@@ -77,7 +103,8 @@ def fresh(seed, s, var):
             rel.data[k] = v.copy()
         rel.freeze_data()
         with gc.quiet():
-            _FRESH[key] = np.array(custom_var(rel) if var == '<custom>'
+            _FRESH[key] = np.array(CUSTOM_VARS[var][1](rel)
+                                   if var in CUSTOM_VARS
                                    else rel[var])
     return _FRESH[key]
 
@@ -93,7 +120,8 @@ def est_apply(name, a):
              'quartile1abs': np.percentile(ab, 25),
              'medianabs': np.median(ab),
              'quartile3abs': np.percentile(ab, 75),
-             '<customest>': custom_est(a)}
+             '<customest>': custom_est(a), '<customest2>': custom_est2(a),
+             '<customest3>': custom_est3(a)}
     for i, j, k in itertools.product((0, 1), repeat=3):
         table[f'x{i}y{j}z{k}'] = a[-i, -j, -k]
     return table[name]
@@ -157,14 +185,24 @@ def _run_case(task):
     fd = make_fd(param)
     before = snapshot(table)
     est_names = ALL_BUILTIN if extra == 'all-estimators' else ESTS
-    ests = [({'customest': custom_est} if e == '<customest>' else e)
-            for e in est_names]
+    # '<customest>' and '<customest2>' share one dictionary, '<customest3>'
+    # has its own
+    ests = [e for e in est_names if e not in CUSTOM_ESTS]
+    shared = {CUSTOM_ESTS[e][0]: CUSTOM_ESTS[e][1]
+              for e in est_names if e in ('<customest>', '<customest2>')}
+    if shared:
+        ests.append(shared)
+    if '<customest3>' in est_names:
+        ests.append({'customest3': custom_est3})
     data = table
     try:
         with gc.quiet():
             for block in partition:
-                vars_ = [({'custom': custom_var} if v == '<custom>' else v)
-                         for v in block]
+                vars_ = [v for v in block if v not in CUSTOM_VARS]
+                cust = {CUSTOM_VARS[v][0]: CUSTOM_VARS[v][1]
+                        for v in block if v in CUSTOM_VARS}
+                if cust:
+                    vars_.insert(len(vars_) // 2, cust)
                 data = atime.over_time(data, fd, vars=vars_, estimates=ests,
                                        verbose=False, **KW)
             if extra == 'estimates-only':
@@ -196,7 +234,7 @@ def _run_case(task):
             bad.append(('row-mixed', 'it'))
         # (i) per-step fresh values
         for v in dict.fromkeys(v for block in partition for v in block):
-            name = 'custom' if v == '<custom>' else v
+            name = CUSTOM_VARS[v][0] if v in CUSTOM_VARS else v
             if name not in data:
                 bad.append(('missing-column', name))
                 continue
@@ -209,7 +247,7 @@ def _run_case(task):
     scal_cols = [k for k in data if np.ndim(data[k][0]) == 3]
     for k in scal_cols:
         for e in est_names:
-            en = 'customest' if e == '<customest>' else e
+            en = CUSTOM_ESTS[e][0] if e in CUSTOM_ESTS else e
             col = f"{k}_{en}"
             if col not in data:
                 bad.append(('missing-estimate', col))
@@ -253,6 +291,10 @@ def main(tier):
                       parts[0], 'all-estimators'))
     for part in ordered_partitions(VARS_C, 3):
         tasks.append((seed, 3, (2, 0, 1), 'it', part, 'components'))
+    # requested names that CONTAIN the name of an input column ('alpha' in
+    # 'DDalpha', 'gammadown3' in 'gammadown3_bssnok', 'Kdown3'...)
+    for part in ordered_partitions(VARS_N, 3):
+        tasks.append((seed, 3, (1, 2, 0), 'it', part, 'name-collision'))
     results = runner.pmap(run_case, tasks, chunksize=4)
     nviol = 0
     for t, r in zip(tasks, results):
@@ -266,7 +308,8 @@ def main(tier):
                           {'task': [nsteps, list(perm), tkey,
                                     [list(x) for x in part], extra]})
         if r['final'] is not None and extra != 'all-estimators':
-            groups.setdefault((nsteps, tkey, extra == 'components'),
+            groups.setdefault((nsteps, tkey, extra if extra in (
+                'components', 'name-collision') else None),
                               []).append((r['final'], t))
     # (v) every split (and every row order) gives the same final table
     for (nsteps, tkey, _), lst in groups.items():
